@@ -986,7 +986,7 @@ func main() {
 			return
 		}
 	}
-	nTopo := e.N(2000, 12000)
+	nTopo := e.N(1500, 12000)
 	casesPer := 6
 	base := int64(1700000000)
 	shapes := map[string]int{}
